@@ -89,10 +89,19 @@ func Value(r resource.Resource) string {
 		return "<nil>"
 	case vspecHolder:
 		return x.TypedSpec().Value
+	case *P:
+		return x.TypedSpec().Value.GetKey()
 	}
 
 	if resource.IsTombstone(r) {
 		return "<tombstone>"
+	}
+
+	if pr, ok := r.(*protobuf.Resource); ok && pr.Metadata().Type() == TypeTP {
+		pp := NewP("", "", "")
+		if err := pr.Unmarshal(pp); err == nil {
+			return pp.TypedSpec().Value.GetKey()
+		}
 	}
 
 	if pr, ok := r.(*protobuf.Resource); ok {
